@@ -29,6 +29,8 @@ def main():
 
     def mesh(m):
         pts = np.array(m['pts'], dtype=np.float64).reshape(-1, 3)
+        if m.get('scale_exp'):
+            pts = pts * (2.0 ** m['scale_exp'])          # exact: power of two
         ids = np.array(m.get('ids') or list(range(1, len(pts) + 1)), dtype=int)
         elements = None
         if m.get('elems'):
@@ -37,6 +39,23 @@ def main():
                 blocks[et] = FEMAttribute(et, np.array(eids, dtype=int), np.array(conn, dtype=int))
             elements = FEMElementalAttribute('ELEMENT', blocks)
         return FEMData(nodes=FEMAttribute('NODE', ids, pts), elements=elements)
+
+    def run_history(c, A, B, once):
+        """operations on the SAME objects before the measured call: an earlier search (fills
+        whatever a search may memoise), in-place moves of the node coordinates"""
+        for op in c.get('history') or []:
+            tgt = A if op.get('target', 'B') == 'A' or B is None else B
+            if op['op'] == 'search':
+                once()
+            elif op['op'] == 'translate':
+                tgt.translation(*[float(v) for v in op['v']])
+            elif op['op'] == 'assign':
+                tgt.nodes.data[:] = np.array(op['pts'], dtype=np.float64).reshape(-1, 3)
+            else:
+                raise ValueError(op['op'])
+
+    def final_pts(fd):
+        return [[fexact(x) for x in row] for row in np.asarray(fd.nodes.data, dtype=np.float64)]
 
     out = []
     for c in spec['calls']:
@@ -47,9 +66,15 @@ def main():
                 A = mesh(c['A'])
                 B = A if c.get('B') is None else mesh(c['B'])
                 bound = float('inf') if c['bound'] is None else float.fromhex(c['bound'])
-                idx, vec, dist = A.nearest_neighbor_search_from_nodes_to_nodes(
-                    c['k'], distance_upper_bound=bound,
-                    target_fem_data=(None if c.get('B') is None else B))
+
+                def once():
+                    return A.nearest_neighbor_search_from_nodes_to_nodes(
+                        c['k'], distance_upper_bound=bound,
+                        target_fem_data=(None if c.get('B') is None else B))
+                run_history(c, A, None if c.get('B') is None else B, once)
+                idx, vec, dist = once()
+                if c.get('history'):
+                    r['final'] = {'A': final_pts(A), 'B': final_pts(B)}
                 r['shape'] = [list(idx.shape), list(vec.shape), list(dist.shape)]
                 r['idx'] = [[int(x) for x in row] for row in idx]
                 r['vec'] = [[[fexact(x) for x in v] for v in row] for row in vec]
@@ -57,7 +82,12 @@ def main():
             elif c['fn'] == 'hd':
                 A = mesh(c['A'])
                 B = mesh(c['B'])
-                h = A.calculate_hausdorff_distance_nodes(B, directed=bool(c['directed']))
+                def once():
+                    return A.calculate_hausdorff_distance_nodes(B, directed=bool(c['directed']))
+                run_history(c, A, B, once)
+                h = once()
+                if c.get('history'):
+                    r['final'] = {'A': final_pts(A), 'B': final_pts(B)}
                 r['hd'] = fexact(h)
             elif c['fn'] == 'hop':
                 A = mesh(c['A'])
